@@ -38,10 +38,29 @@ def run_property(pid, cfg, replay=None, evidence_dir=None, write_evidence=True):
     try:
         report = mod.run(cfg)
         meta = getattr(mod, 'META', {})
+        st_bad = []
+        if cfg.tier == 'thorough' and getattr(mod, 'SELFTEST', None) and not replay:
+            from acv import selftest
+            res = selftest.run(pid, mod.SELFTEST, cfg, report.findings)
+            summary = {'fired': 0, 'silent': 0, 'skipped': 0, 'failed': 0}
+            for r in res:
+                st = r['status']
+                if st in ('fired', 'silent', 'skipped'):
+                    summary[st] += 1
+                else:
+                    summary['failed'] += 1
+                    st_bad.append(r)
+                print('  selftest %-34s %s %s' % (r['id'], st, r.get('report', r.get('why', ''))))
+            report.analysed['selftest'] = {'summary': summary, 'variants': [
+                {k: v for k, v in r.items() if k != 'out'} for r in res]}
         rc = finish(report, level='other', explanation=meta.get('explanation', ''),
                     assumptions=meta.get('assumptions', ()), decided=meta.get('decided', ''),
                     not_decided=meta.get('not_decided', ''), evidence_dir=evidence_dir,
                     write_evidence=write_evidence)
+        if st_bad:
+            for r in st_bad:
+                print('ANALYSIS-ERROR: property=%s selftest variant %s: %s\n%s' % (pid, r['id'], r['status'], r.get('out', '')))
+            return rc or 2
         if replay:
             rec = json.load(open(replay))
             hit = [f for f in report.findings if f.rule == rec.get('rule') and f.construct == rec.get('construct')]
@@ -116,12 +135,7 @@ def main():
     if not a.prop or a.prop not in PROPS:
         ap.print_usage()
         return 2
-    rc = run_property(a.prop, cfg, replay=a.replay, evidence_dir=a.evidence_dir, write_evidence=not a.no_evidence)
-    if rc == 0 and a.tier == 'thorough':
-        mod = rule_module(a.prop)
-        if hasattr(mod, 'selftest'):
-            pass
-    return rc
+    return run_property(a.prop, cfg, replay=a.replay, evidence_dir=a.evidence_dir, write_evidence=not a.no_evidence)
 
 
 if __name__ == '__main__':
